@@ -16,6 +16,10 @@ import IrVerif.Model.JournalKernel
                    it references strongly.
 `journal.kernel` : a C01-kernel history (optionally from some position on inside nested journals):
                    the model's call tree of every call, and the journaled run.
+`journal.flat`   : a flat history (`runFlat`): raw enter / exit (normal or exceptional) / scripted operations,
+                   plus taking a callable from the class table (`capture`) and calling it later (`callCaptured`,
+                   or `callCapturedGuarded` for `guarded`); answers the control state after every item, whether the
+                   word is well bracketed, the captured implementations, outcomes, entries.
 `journal.run`    : a block program whose instrumented calls are scripted call trees (what the
                    original functions did in an un-journaled run); answers outcomes, the ghost
                    trace, every journal's entries, the final table and current journal.
@@ -125,7 +129,7 @@ def entryJ (e : Entry) : Json :=
     (match e.ref with | .weak o => obj [("weak", toJson o)] | .strong o => obj [("strong", toJson o)]),
     toJson e.objectId]
 
-def ctlStateJ (w : World Unit) (nj : Nat) (refused : Bool) : Json :=
+def ctlStateJ {σ : Type} (w : World σ) (nj : Nat) (refused : Bool) : Json :=
   obj [("table", tableJ w.table), ("current", optNatJ w.current), ("refused", toJson refused),
        ("active", Json.arr ((List.range nj).map (fun j => toJson (w.journals j).active)).toArray),
        ("previous", Json.arr ((List.range nj).map (fun j => optNatJ (w.journals j).previous)).toArray),
@@ -133,6 +137,40 @@ def ctlStateJ (w : World Unit) (nj : Nat) (refused : Bool) : Json :=
           match (w.journals j).captured with
           | none => Json.null
           | some t => tableJ t)).toArray)]
+
+/-- one item of a flat history (`journal.flat`): an event of `runFlat`, or taking / calling a callable -/
+inductive FItem where
+  | ev (e : FEv S)
+  | capture (name : String) (k self : Nat)
+  | callcap (name : String) (id : Nat)
+
+def parseFlatItems : List Json → Array (Prog S) → Except String (List FItem × Array (Prog S))
+  | [], bodies => pure ([], bodies)
+  | j :: rest, bodies => do
+    let t ← getStr j "t"
+    let (item, bodies) ← (match t with
+      | "enter" => do return (FItem.ev (.enter (← getNat j "j")), bodies)
+      | "exit" => do return (FItem.ev (.exit (← getNat j "j") ((getBool j "exc").toOption.getD false)), bodies)
+      | "op" => do
+        let steps ← (← getArr j "steps").mapM parseStep
+        let out ← parseOut (← j.getObjVal? "out")
+        let (cs, bodies) := steps.foldl
+          (fun (acc : List (Nat × Nat × Nat) × Array (Prog S)) st =>
+            let (c, b) := build st acc.2
+            (acc.1 ++ [c], b)) ([], bodies)
+        return (FItem.ev (.op (callsThen cs out)), bodies)
+      | "capture" => do return (FItem.capture (← getStr j "name") (← getNat j "k") (← getNat j "self"), bodies)
+      | "callcap" => do
+        let st ← parseStep (← j.getObjVal? "step")
+        let (c, bodies) := build st bodies
+        return (FItem.callcap (← getStr j "name") c.2.2, bodies)
+      | _ => throw s!"unknown flat item {t}" : Except String (FItem × Array (Prog S)))
+    let (items, bodies) ← parseFlatItems rest bodies
+    return (item :: items, bodies)
+
+def itemEv : FItem → Option (FEv S)
+  | .ev e => some e
+  | _ => none
 
 def handle : Handler := fun m j =>
   match m with
@@ -184,20 +222,32 @@ def handle : Handler := fun m j =>
   | "journal.kernel" => some do
       let fuel ← getNat j "fuel"
       let nj ← getNat j "nj"
-      let ops ← (← getArr j "ops").mapM IrVerif.Drive.Kernel.parseAny
+      let opsJ ← getArr j "ops"
+      let calls ← opsJ.mapM (fun o => do
+        let op ← IrVerif.Drive.Kernel.parseAny o
+        let sp : Spell := match o.getObjVal? "c20" with
+          | .ok a => {
+              newFunction := (a.getObjValAs? Nat "fn").toOption
+              newAttrs := ((a.getObjValAs? (Array Nat) "attrs").toOption.getD #[]).toList
+              viaNode := (a.getObjValAs? Bool "viaNode").toOption.getD false
+              noSetItem := (a.getObjValAs? Bool "noSetItem").toOption.getD false }
+          | .error _ => {}
+        return ({ op := op, sp := sp } : KCall))
+      let ops := calls.map (·.op)
       let from_ ← getNat j "from"
       let nest ← getNats j "nest"
-      let pre := ops.take from_
-      let post := ops.drop from_
-      let kb : KBlk := .seq (.ops pre) (nest.foldr (fun jid b => .withJ jid b) (.ops post))
-      let l0J := fun (c : L0) => Json.arr #[toJson c.slot, toJson c.self, toJson c.ok, Json.arr #[]]
-      let l1J := fun (c : L1) => Json.arr #[toJson c.slot, toJson c.self, toJson c.ok, Json.arr (c.kids.map l0J).toArray]
-      let l2J := fun (c : L2) => Json.arr #[toJson c.slot, toJson c.self, toJson c.ok, Json.arr (c.kids.map l1J).toArray]
-      let rec trees (w : KW) : List IrVerif.Kernel.AnyOp → List Json
+      let pre := calls.take from_
+      let post := calls.drop from_
+      let kb : KBlkX := .seq (.ops pre) (nest.foldr (fun jid b => .withJ jid b) (.ops post))
+      let retJ := fun (slot : Nat) (ok : Bool) (v : Val) => if ok then valJ (retFor slot v) else Json.null
+      let l0J := fun (c : L0) => Json.arr #[toJson c.slot, toJson c.self, toJson c.ok, Json.arr #[], retJ c.slot c.ok c.ret]
+      let l1J := fun (c : L1) => Json.arr #[toJson c.slot, toJson c.self, toJson c.ok, Json.arr (c.kids.map l0J).toArray, retJ c.slot c.ok c.ret]
+      let l2J := fun (c : L2) => Json.arr #[toJson c.slot, toJson c.self, toJson c.ok, Json.arr (c.kids.map l1J).toArray, retJ c.slot c.ok c.ret]
+      let rec trees (w : KW) : List KCall → List Json
         | [] => []
-        | op :: rest => Json.arr ((callTree w op).map l2J).toArray :: trees (IrVerif.Kernel.stepAny w op).1 rest
+        | c :: rest => Json.arr ((callTreeX w c).map l2J).toArray :: trees (IrVerif.Kernel.stepAny w c.op).1 rest
       let r := runBlock kCfg fuel kb.toBlock (initialWorld { w := IrVerif.Kernel.World.empty })
-      return obj [("trees", Json.arr (trees IrVerif.Kernel.World.empty ops).toArray),
+      return obj [("trees", Json.arr (trees IrVerif.Kernel.World.empty calls).toArray),
         ("log", Json.arr (r.1.log.map outJ).toArray),
         ("exc", optNatJ r.2),
         ("trace", Json.arr (r.1.trace.map evJ).toArray),
@@ -206,8 +256,8 @@ def handle : Handler := fun m j =>
         ("expected", Json.arr ((List.range nj).map (fun i =>
            Json.arr ((expectedFor kOwner i false r.1.trace).map entryJ).toArray)).toArray),
         ("world_eq", toJson (decide (r.1.ir.w = histWorld IrVerif.Kernel.World.empty ops))),
-        ("log_eq", toJson (decide (r.1.log = histLog IrVerif.Kernel.World.empty ops))),
-        ("calls_eq", toJson (decide (r.1.trace.filter isCall = histEvs IrVerif.Kernel.World.empty ops))),
+        ("log_eq", toJson (decide (r.1.log = histLogX IrVerif.Kernel.World.empty calls))),
+        ("calls_eq", toJson (decide (r.1.trace.filter isCall = histEvsX IrVerif.Kernel.World.empty calls))),
         ("table", tableJ r.1.table),
         ("current", optNatJ r.1.current)]
   | "journal.ctl" => some do
@@ -229,6 +279,57 @@ def handle : Handler := fun m j =>
           | none => w := exit jid w
         outs := outs.push (ctlStateJ w nj refused)
       return obj [("r", Json.arr outs)]
+  | "journal.flat" => some do
+      let fuel ← getNat j "fuel"
+      let nj ← getNat j "nj"
+      let guarded := (getBool j "guarded").toOption.getD false
+      let ownerPairs ← getArr j "owner"
+      let owners ← ownerPairs.mapM (fun p => do
+        let a ← (fromJson? p : Except String (Array Nat))
+        return (a[0]!, a[1]!))
+      let owner : Obj → Obj := fun o => match owners.find? (·.1 == o) with
+        | some p => p.2
+        | none => o
+      let (items, bodies) ← parseFlatItems (← getArr j "evs") #[]
+      let cfg : Cfg S := {
+        impl := fun _ _ arg => match arg with
+          | .int n => bodies.getD n.toNat (.done (.raise 1))
+          | _ => .done (.raise 1)
+        owner := owner
+        details := fun _ _ _ s => some s }
+      let mut w : World S := initialWorld []
+      let mut caps : List (String × Captured) := []
+      let mut states : Array Json := #[]
+      let mut capJ : Array Json := #[]
+      for it in items do
+        let mut refused := false
+        match it with
+        | .ev e =>
+          match e with
+          | .enter jid => refused := (w.journals jid).active
+          | _ => pure ()
+          w := runFlat cfg fuel [e] w
+        | .capture name k self =>
+          let c := capture k self w
+          caps := (name, c) :: caps
+          capJ := capJ.push (implJ c.impl)
+        | .callcap name id =>
+          match caps.find? (·.1 == name) with
+          | some (_, c) =>
+            let r := if guarded then callCapturedGuarded cfg fuel c (.int id) w else callCaptured cfg fuel c (.int id) w
+            w := { r.1 with log := r.1.log ++ [r.2] }
+          | none => throw s!"callcap of an unknown callable {name}"
+        states := states.push (ctlStateJ w nj refused)
+      let word := items.filterMap itemEv
+      return obj [("states", Json.arr states),
+        ("wb", toJson (decide (WellBracketed word))),
+        ("caps", Json.arr capJ),
+        ("log", Json.arr (w.log.map outJ).toArray),
+        ("trace", Json.arr (w.trace.map evJ).toArray),
+        ("entries", Json.arr ((List.range nj).map (fun i =>
+           Json.arr (((w.journals i).entries).map entryJ).toArray)).toArray),
+        ("expected", Json.arr ((List.range nj).map (fun i =>
+           Json.arr ((expectedFor owner i false w.trace).map entryJ).toArray)).toArray)]
   | "journal.run" => some do
       let fuel ← getNat j "fuel"
       let nj ← getNat j "nj"
